@@ -349,6 +349,11 @@ def unit_interleavings(ctx, st):
 # ---------------------------------------------------------------- pipeline
 
 def correspond(ctx):
+    with factory.BalancedReports(ctx):
+        _correspond(ctx)
+
+
+def _correspond(ctx):
     st = factory.load()
     dependent = unit_precision(ctx)
     unit_interleavings(ctx, st)
